@@ -9,7 +9,7 @@ from ..interp import NoReturn, Infeasible, NeedChoice, Ctx, Interp, Obj, Sym, Vi
 from ..build import AnalysisBroken
 from ..lib_c09 import PInterp, Agg, as_obj, chain, mk_tokens, mk_hideset, strip_ids, PARAM, OTHER, cls_of
 from ..lib_c09x import (Desc, show, explore_expand, explore_subst, SubstPath, explore_subst_shared, explore_skip_arms, cut_new_token_flags,
-                        creator_summaries, describe_flag, CREATORS)
+                        creator_summaries, describe_flag, CREATORS, FRESH)
 
 PU = 'preprocess.c'
 TU = 'tokenize.c'
@@ -396,9 +396,22 @@ def r_expand(P, rep, protect):
             continue
         tok = ctx.tok
         st = {f: _flag_state(it, first, tok, f) for f in FLAGS}
-        if kind == 'builtin' and not first.meta.get('fresh'):
+        if kind == 'builtin' and not (first.meta.get('fresh') or first.meta.get('created')):
             rep.undecided('R19.2', '%s:%s:builtin-result' % (PU, fn), 'the dynamic macro token is not the handler result', where=where)
             continue
+        if kind == 'builtin':
+            # new_num_token and new_str_token may leave different constants: every handler's creator is a case of its own
+            for f, (ph, per) in (first.meta.get('flag_choice') or {}).items():
+                if first.fields.get(f) is ph:       # not overwritten by expand_macro afterwards
+                    states = set()
+                    for c, d in per:
+                        v = FRESH[f] if d[0] == 'fresh' else (d[1] if d[0] == 'const' else None)
+                        states.add('other' if v is None else ('true' if v else 'false'))
+                    st[f] = next(x for x in ('other', 'false', 'true') if x in states)      # the least favourable case
+            oth = sorted(f for f in FLAGS if st[f] == 'other')
+            if oth:
+                rep.undecided('R19.2', '%s:%s:builtin-created-token-flags' % (PU, fn), 'new_num_token/new_str_token write %s of the token they create from their template token (the macro token or the end of its origin chain); the rule cannot attribute that value' % '/'.join(oth), where=where)
+                continue
         facts['first token flags'] = st
         A.ob('R19.2', '%s:%s:%s-first-token-has_space' % (PU, fn, kind), st['has_space'] == 'inherited',
              'the first token of a%s expansion does not take has_space of the macro token (it is %s): `x M` prints/stringizes as `xM...`%s' % (
